@@ -216,7 +216,89 @@ struct Explorer {
         }
     }
 
+    // ---- huge deep state: with the default parameters of the C interface a level only owns a PGM-index above 8^7 entries ----------
+    // create() of 2^21+1 pairs (keys 10+2i), a scripted prefix of 40 consecutive erases (a run of tombstones longer than the
+    // 2*16+2 search window of the level's index), then every history of depth D over keys around the run.
+    struct HugeModel {
+        static constexpr uint64_t N = (uint64_t(1) << 21) + 1;
+        std::map<T, std::pair<bool, T>> overlay;   // key -> (live, value)
+        static bool in_base(T k) { return k >= 10 && (uint64_t(k) - 10) % 2 == 0 && (uint64_t(k) - 10) / 2 < N; }
+        static T base_val(T k) { return T(((uint64_t(k) - 10) / 2) % 3 + 1); }
+        bool find(T k, T *v) const { auto it = overlay.find(k); if (it != overlay.end()) { if (it->second.first) *v = it->second.second; return it->second.first; } if (in_base(k)) { *v = base_val(k); return true; } return false; }
+        bool lower_bound(T q, T *k, T *v) const {   // smallest live key >= q
+            uint64_t c = q < T(10) ? 10 : uint64_t(q);
+            for (int guard = 0; guard < 400; ++guard, ++c) { T v2; if (c > 10 + 2 * (N - 1) + 100) return false; if (find(T(c), &v2)) { *k = T(c); *v = v2; return true; } }
+            return false;
+        }
+        size_t size() const { size_t s = N; for (auto &o : overlay) { bool b = in_base(o.first); if (b && !o.second.first) --s; if (!b && o.second.first) ++s; } return s; }
+    };
+    void huge_history(const std::vector<Op> &ops, size_t check_from) {
+        std::string cs = case_of("init=huge2097153+40erases ops=" + ops_str(ops));
+        run.set_case(cs);
+        run.add(cn.histories); run.add(cn.deep_histories);
+        std::vector<typename A::Pair> pairs(HugeModel::N);
+        for (uint64_t i = 0; i < HugeModel::N; ++i) pairs[i] = {T(10 + 2 * i), T(i % 3 + 1)};
+        void *d = A::dcreate(pairs.data(), pairs.size());
+        pairs.clear(); pairs.shrink_to_fit();
+        if (!d) { run.violation(cs, "dynamic create returned NULL for a sorted range"); return; }
+        HugeModel m;
+        const uint64_t P = 700000;
+        auto key_at = [&](uint64_t i) { return T(10 + 2 * i); };
+        for (uint64_t i = P; i < P + 40; ++i) { A::derase(d, key_at(i)); m.overlay[key_at(i)] = {false, 0}; }
+        std::vector<T> queries = {T(key_at(P) - 3), T(key_at(P) - 2), T(key_at(P) - 1), key_at(P), T(key_at(P) + 1), key_at(P + 20), T(key_at(P + 39) + 1), key_at(P + 40), T(5), key_at(HugeModel::N - 1), T(key_at(HugeModel::N - 1) + 1)};
+        auto check = [&](const std::string &where) {
+            for (T q : queries) {
+                run.add(cn.finds);
+                T v = 0, mv = 0; bool f = A::dfind(d, q, &v), mf = m.find(q, &mv);
+                if (f != mf || (f && v != mv)) { run.violation(cs + " " + where + " q=" + mc::key_str(q), "find() disagrees with the reference model"); return false; }
+                void *lb = A::dlower(d, q);
+                T cur = q; bool ok = true;
+                for (int step = 0; step < 3 && ok; ++step) {
+                    run.add(cn.iter_steps);
+                    T k = 0, val = 0, mk = 0, mval = 0; bool has = A::dnext(d, lb, &k, &val), mhas = m.lower_bound(cur, &mk, &mval);
+                    if (has != mhas || (has && (k != mk || val != mval))) { run.violation(cs + " " + where + " q=" + mc::key_str(q), "lower_bound + iterator_next yields " + (has ? mc::key_str(k) : std::string("end")) + ", the reference model says " + (mhas ? mc::key_str(mk) : std::string("end"))); ok = false; }
+                    if (!mhas) break;
+                    cur = T(mk + 1);
+                }
+                A::dit_destroy(lb);
+                if (!ok) return false;
+            }
+            { void *it = A::dbegin(d); T k = 0, val = 0, mk = 0, mval = 0; bool has = A::dnext(d, it, &k, &val), mhas = m.lower_bound(std::numeric_limits<T>::min(), &mk, &mval); A::dit_destroy(it);
+              if (has != mhas || (has && (k != mk || val != mval))) { run.violation(cs + " " + where, "begin + iterator_next disagrees with the reference model"); return false; } }
+            if (A::dsize(d) != m.size()) { run.violation(cs + " " + where, "size() " + std::to_string(A::dsize(d)) + " != " + std::to_string(m.size())); return false; }
+            return true;
+        };
+        bool ok = check_from == 0 ? check("after=prefix") : true;
+        for (size_t i = 0; i < ops.size() && ok; ++i) {
+            if (ops[i].kind == 0) { A::dinsert(d, ops[i].key, ops[i].val); m.overlay[ops[i].key] = {true, ops[i].val}; } else { A::derase(d, ops[i].key); m.overlay[ops[i].key] = {false, 0}; }
+            run.add(cn.steps);
+            if (i + 1 >= check_from) ok = check("after_step=" + std::to_string(i));
+        }
+        A::ddestroy(d);
+    }
+    std::vector<Op> huge_alphabet() {
+        const uint64_t P = 700000; auto key_at = [&](uint64_t i) { return T(10 + 2 * i); };
+        std::vector<Op> a;
+        for (T k : {T(key_at(P) - 2), key_at(P), T(key_at(P) + 1), key_at(P + 39), key_at(P + 40)}) { a.push_back({0, k, T(7)}); a.push_back({1, k, 0}); }
+        return a;
+    }
+    void huge_bfs(int D, int first_op) {
+        auto alphabet = huge_alphabet();
+        if (D == 0) { huge_history({}, 0); return; }
+        std::vector<int> sel(D, 0); sel[0] = first_op; std::vector<int> prev;
+        for (;;) {
+            std::vector<Op> ops; for (int i = 0; i < D; ++i) ops.push_back(alphabet[sel[i]]);
+            size_t common = 0; if (!prev.empty()) while (common < size_t(D) && prev[common] == sel[common]) ++common;
+            huge_history(ops, prev.empty() ? 0 : common + 1);
+            prev = sel;
+            if (run.deadline_passed()) return;
+            int i = D - 1; while (i >= 1 && ++sel[i] == int(alphabet.size())) { sel[i] = 0; --i; }
+            if (i < 1) break;
+        }
+    }
+
     void replay(const std::map<std::string, std::string> &m) {
+        if (m.count("init") && m.at("init").rfind("huge", 0) == 0) { huge_history(parse_ops(m.at("ops")), 0); return; }
         if (m.count("eps")) {
             size_t eps = strtoul(m.at("eps").c_str(), 0, 10);
             std::vector<T> data, queries;
@@ -261,6 +343,8 @@ template<typename T> void run_task(Run &run, Cn &cn, const Task &t, bool thoroug
             std::string d; for (auto &p : inits[t.init_id]) d += (d.empty() ? "" : ";") + mc::key_str(p.first) + ":" + mc::key_str(p.second);
             ex.dynamic_bfs(inits[t.init_id], true, 0, t.D, t.first_op, keys, d);
         }
+    } else if (t.kind == 4) {
+        ex.huge_bfs(t.D, t.first_op);
     } else {
         // deep state: 600 bulk-loaded pairs (land in level 4) + 585 fillers (buffer full): the next insert merges
         std::vector<std::pair<T, T>> pairs; for (size_t i = 0; i < 600; ++i) pairs.emplace_back(T(5 + 2 * i), T(i % 3 + 1));
@@ -302,6 +386,12 @@ int main(int argc, char **argv) {
             for (int init = 1; init < 35; ++init) { Task t{}; t.type = ty; t.kind = 2; t.D = D - 2; t.first_op = first_op; t.init_id = init; tasks.push_back(t); }
         }
         for (int first_op = 0; first_op < 15; ++first_op) { Task t{}; t.type = ty; t.kind = 3; t.D = Ddeep; t.first_op = first_op; tasks.push_back(t); }
+        // huge deep state (a level owning a PGM-index with the default parameters): uint32 and int64 in the quick tier
+        bool asan_build = false;
+#ifdef VERIF_ASAN
+        asan_build = true;
+#endif
+        if (!asan_build && (thorough || ty == 1 || ty == 2)) for (int first_op = 0; first_op < 10; ++first_op) { Task t{}; t.type = ty; t.kind = 4; t.D = thorough ? 2 : 1; t.first_op = first_op; tasks.push_back(t); }
     }
     std::stable_sort(tasks.begin(), tasks.end(), [](const Task &a, const Task &b) { return a.kind > b.kind; });
     run.run_tasks(tasks.size(), [&](uint64_t i) {
@@ -313,7 +403,7 @@ int main(int argc, char **argv) {
     ev.states_counter = "static_indexes_created"; ev.transitions_counter = "static_searches_checked"; ev.nontrivial_counter = "arrays_with_2plus_distinct_keys"; ev.eval_counter = "dynamic_steps_checked";
     ev.rule = "static part: every non-decreasing array of length 1.." + std::to_string(N) + " over four palettes for int32/int64/uint32/uint64, run-time epsilon in {1,2,3,64,4096}, all alphabet queries, plus the two-block grammar for epsilon {1,3,64}; create must return NULL exactly when the reserved value is present. "
               "dynamic part: every history of length " + std::to_string(D) + " of insert_or_assign/erase over 4 colliding keys x 2 values from create_empty, length " + std::to_string(D - 2) + " from every create() of <= 3 sorted pairs, and length " + std::to_string(Ddeep) +
-              " from a deep state (create of 600 pairs + 585 inserts, so that the next insert merges the buffer into level 4); after every step find, lower_bound + iterator_next, begin + iterator_next to exhaustion and size are compared with std::map. Only functions of cpgm.h are called. "
+              " from a deep state (create of 600 pairs + 585 inserts, so that the next insert merges the buffer into level 4), and short histories from a huge state (create of 2^21+1 pairs, which lands in a level that owns a PGM-index with the default parameters, followed by 40 consecutive erases); after every step find, lower_bound + iterator_next, begin + iterator_next to exhaustion and size are compared with std::map. Only functions of cpgm.h are called. "
               "States = static indexes built (dynamic steps are reported as evaluations); non-trivial = at least two distinct keys.";
     ev.bounds = "N<=" + std::to_string(N) + ", dynamic depth " + std::to_string(D) + "/" + std::to_string(D - 2) + "/" + std::to_string(Ddeep);
     ev.assumptions = {"c-interface/cpgm.cpp compiled from the repository with the engine's flags", "dynamic histories are re-executed from scratch (opaque handles cannot be copied); states after a shared prefix are checked once"};
